@@ -143,7 +143,14 @@ struct Found {
 
 fn shrink(check: &dyn Check, ctx: &RunCtx, mut v: Vec<u32>, class: &str, budget: usize) -> (Vec<u32>, usize) {
     let mut tries = 0usize;
+    // wall-clock cap per class as well (expensive engines): once exceeded every further attempt is skipped
+    let t0 = Instant::now();
+    let budget = std::cell::Cell::new(budget);
     let fails = |c: &Vec<u32>, tries: &mut usize| -> bool {
+        if t0.elapsed().as_secs_f64() > 20.0 {
+            budget.set(0);
+            return false;
+        }
         *tries += 1;
         let e = execute(check, ctx, Choices::replay(c.clone()), false);
         matches!(&e.out.violation, Some(x) if x.class() == class)
@@ -158,7 +165,7 @@ fn shrink(check: &dyn Check, ctx: &RunCtx, mut v: Vec<u32>, class: &str, budget:
     // pass 1: truncate tail (zeros at the tail are implicit)
     let mut lo = 0usize;
     let mut hi = v.len();
-    while lo < hi && tries < budget {
+    while lo < hi && tries < budget.get() {
         let mid = (lo + hi) / 2;
         let c = v[..mid].to_vec();
         if fails(&c, &mut tries) {
@@ -172,7 +179,7 @@ fn shrink(check: &dyn Check, ctx: &RunCtx, mut v: Vec<u32>, class: &str, budget:
     let mut size = (v.len() / 2).max(1);
     loop {
         let mut i = 0;
-        while i + size <= v.len() && tries < budget {
+        while i + size <= v.len() && tries < budget.get() {
             let mut c = v.clone();
             c.drain(i..i + size);
             if fails(&c, &mut tries) {
@@ -190,14 +197,14 @@ fn shrink(check: &dyn Check, ctx: &RunCtx, mut v: Vec<u32>, class: &str, budget:
             }
             i += size;
         }
-        if size == 1 || tries >= budget {
+        if size == 1 || tries >= budget.get() {
             break;
         }
         size /= 2;
     }
     // pass 3: lower single values
     let mut i = 0;
-    while i < v.len() && tries < budget {
+    while i < v.len() && tries < budget.get() {
         if v[i] > 0 {
             for cand in [0, v[i] / 2, v[i] - 1] {
                 if cand < v[i] {
@@ -285,6 +292,9 @@ pub fn run_check(check: &dyn Check, opt: &Options) -> i32 {
                     let run = next.fetch_add(1, Ordering::Relaxed);
                     if run >= runs {
                         break;
+                    }
+                    if std::env::var("VERIF_DEBUG").is_ok() {
+                        eprintln!("run {run} starts");
                     }
                     let want_sample = run % sample_every == 0 && samples.len() < 3;
                     let ctx = RunCtx { tier: opt.tier, run, want_sample };
